@@ -116,7 +116,7 @@ theorem executeGlobals_progress : ∀ (gs : List GDef) (ss : List GSt) (k : Key)
       exact ⟨_, rfl⟩
 
 theorem execute_progress {g : GDef} {st : GSt} {k : Key}
-    (h : isConstraintArgument g.keys k = true → g.kind ≠ .allOf → st.used = false) :
+    (h : isConstraintArgument g.keys k = true → (g.kind = .anyOf ∨ g.kind = .oneOf) → st.used = false) :
     ∃ st', g.execute st k = .ok st' := by
   unfold GDef.execute
   split
@@ -127,12 +127,14 @@ theorem execute_progress {g : GDef} {st : GSt} {k : Key}
     | allOf => exact ⟨_, rfl⟩
     | anyOf =>
       dsimp only
-      rw [h hc (by rw [hk]; intro c; cases c)]
+      rw [h hc (Or.inl hk)]
       exact ⟨_, rfl⟩
     | oneOf =>
       dsimp only
-      rw [h hc (by rw [hk]; intro c; cases c)]
+      rw [h hc (Or.inr hk)]
       exact ⟨_, rfl⟩
+    | differ => exact ⟨_, rfl⟩
+    | disjoint => exact ⟨_, rfl⟩
 
 /-- one use goes through when each of its pieces does -/
 theorem applyUse_progress {cfg : Cfg} {h : HState} {u : Use} {d : ArgDef}
@@ -175,9 +177,9 @@ theorem checkMandatoryCardinality_progress : ∀ (ds : List ArgDef) (ss : List A
       simp only [checkMandatoryCardinality, throwIf, h1, h2, Bool.false_eq_true, if_false, Res.bind_ok]
       exact ih ss (fun i d' st hd hs => h (i + 1) d' st hd hs)
 
-theorem checkGlobals_progress : ∀ (gs : List GDef) (ss : List GSt),
-    (∀ (n : Nat) (g : GDef) (st : GSt), gs[n]? = some g → ss[n]? = some st → g.endCheck st = .ok ()) →
-    checkGlobals gs ss = .ok () := by
+theorem checkGlobals_progress (defs : List ArgDef) (sts : List ArgSt) : ∀ (gs : List GDef) (ss : List GSt),
+    (∀ (n : Nat) (g : GDef) (st : GSt), gs[n]? = some g → ss[n]? = some st → g.endCheck defs sts st = .ok ()) →
+    checkGlobals defs sts gs ss = .ok () := by
   intro gs
   induction gs with
   | nil => intro ss _; cases ss <;> rfl
